@@ -23,7 +23,9 @@ TRUSTED = ["sqrt is uninterpreted in the rational model (harness applies libm sq
            "scipy.optimize.least_squares (HG fit) and scipy.stats.norm/t are not modelled: HG is checked through relations "
            "between implementation runs only; cdf/quantiles are recomputed with independent formulas (erfc, stdlib inv_cdf, "
            "regularised incomplete beta + bisection)"]
-ASSUMPTIONS = ["series values are small dyadic rationals or NaN; quotients compared to 1e-9",
+ASSUMPTIONS = ["series values are small dyadic rationals times a per-series power of two 2^e, -30 <= e <= 30 (exact in float64, so the "
+               "exact-rational model applies at every magnitude), or NaN; quotients compared to 1e-9; mean and interval limits are "
+               "compared after exact division by 2^e, i.e. relative to the magnitude of the series",
                "exact V_hat = 0 on a non-constant series is decided by float rounding in the implementation: skipped and tagged",
                "float rounding is not modelled"]
 MANIFEST = dict(
@@ -39,7 +41,8 @@ MANIFEST = dict(
          "counterexample on the witness series); n <= next_regular n, hence the FFT length is >= 2n-1. Tied to the code by "
          "differential correspondence (HLN statistic, mean, length, CI on the implementation's own statistic, acovf vs the direct "
          "estimator at every lag, _next_regular exhaustively up to 1e4/1e5). The oracle checks the real diebold_mariano against the "
-         "Spec, sign symmetry and series independence for both methods, scale invariance (HLN), confidence_gt_0 and the interval "
+         "Spec, sign symmetry and series independence for both methods, scale invariance (HLN; factors down to 2^-30 and up to 2^30, "
+         "series of magnitude 2^-30..2^30 throughout, mean / limits compared relative to that magnitude), confidence_gt_0 and the interval "
          "against independent cdf/quantile implementations, and _next_regular against the true next 5-smooth number.",
     note="Trusted: Lean kernel; propext/Classical.choice/Quot.sound; the hand model and harness; libm sqrt (uninterpreted in the "
          "rational model). NOT modelled / not proved: the HG method (scipy least_squares fit of the exponential covariance model) — "
@@ -51,7 +54,9 @@ MANIFEST = dict(
     technique="Lean 4 theorems over a hand-written executable model + differential correspondence + relational oracle",
     design="6/C19")
 RULE = ("1-4 series per call (rows of a 2-D DataArray, either dim order, fresh str dim names), length 2-40, dyadic values with ties, "
-        "exact zero-mean / constant / all-zero series forced regularly, NaN per slot, h uniform in [1, valid length); "
+        "exact zero-mean / constant / all-zero series forced regularly, about half of the series multiplied by 2^e with e in [-30, 30] "
+        "(extremes and |e| >= 14 favoured: V_hat from ~1e-18 to ~1e+20), NaN per slot, h uniform in [1, valid length); "
+        "rescaling relation with factors 2, 3, 1/8, 2^-30, 2^30; acovf series likewise scaled; "
         "both methods, both reference distributions, 6 confidence levels; distinct = distinct canonical call; "
         "non-trivial = some series has a finite statistic")
 
@@ -103,9 +108,35 @@ def cdf_for(dist, x, n):
 
 
 # ------------------------------------------------------------------------------------------------ cases
-def mk_case(rows, hs, method="HLN", dist="normal", cl=0.95, layout="ts-first"):
+def mk_case(rows, hs, method="HLN", dist="normal", cl=0.95, layout="ts-first", exps=None):
+    """exps[i] = e: row i has already been multiplied by 2^e (exact); used only to compare mean / interval relative to the
+    magnitude of the series"""
     return {"rows": [[float(x) for x in r] for r in rows], "h": [int(h) for h in hs], "method": method, "dist": dist,
-            "cl": float(cl), "layout": layout}
+            "cl": float(cl), "layout": layout, "exp": [int(e) for e in (exps if exps is not None else [0] * len(rows))]}
+
+
+SCALE_EXPS = [-30, -30, -29, -27, -24, -20, -17, -14, -13, -10, -7, -3, 3, 8, 14, 21, 27, 30, 30]
+RESCALE_FACTORS = (2.0, 3.0, 0.125, 2.0 ** -30, 2.0 ** 30)
+
+
+def gen_exp(rng):
+    """power-of-two magnitude of a series: 2^e * dyadic is exact in float64 and so are all sums / products of the HLN route"""
+    u = rng.random()
+    if u < 0.5:
+        return 0
+    if u < 0.85:
+        return rng.choice(SCALE_EXPS)
+    return rng.randint(-30, 30)
+
+
+def row_scale(case, i):
+    e = case.get("exp")
+    return 2.0 ** (e[i] if e else 0)
+
+
+def normed(r, i, s):
+    """outputs of series i with mean / limits divided (exactly) by the power-of-two magnitude s of the series"""
+    return {key: (r[key][i] / s if key in ("mean", "ci_upper", "ci_lower") else r[key][i]) for key in r}
 
 
 F6_WITNESS = mk_case([[1, -1, 2, -2]], [1], "HLN", "normal", 0.95)
@@ -132,9 +163,12 @@ def gen_series(rng, n):
 def gen_case(rng, method=None, nmax=14):
     k = rng.choice([1, 1, 2, 3, 4])
     n = rng.choice([2, 3, 3, 4, 5, 6, 7, 8, 10, 12, nmax])
-    rows, hs = [], []
+    rows, hs, exps = [], [], []
     for _ in range(k):
         s = gen_series(rng, n)
+        e = gen_exp(rng)
+        exps.append(e)
+        s = [x * 2.0 ** e for x in s]
         pn = rng.choice([0, 0, 0.15, 0.3])
         valid = n
         for i in range(n):
@@ -144,7 +178,7 @@ def gen_case(rng, method=None, nmax=14):
         rows.append(s)
         hs.append(rng.randint(1, valid - 1))
     return mk_case(rows, hs, method or rng.choice(["HLN", "HLN", "HG"]), rng.choice(["normal", "t"]), rng.choice(CLS),
-                   rng.choice(["ts-first", "ts-second"]))
+                   rng.choice(["ts-first", "ts-second"]), exps)
 
 
 def run_impl(case):
@@ -201,8 +235,11 @@ def tag_case(ctx, case, r=None):
     ctx.tag("method:" + case["method"])
     ctx.tag("dist:" + case["dist"])
     ctx.tag("series:%d" % len(case["rows"]))
-    for row in case["rows"]:
+    for i, row in enumerate(case["rows"]):
         v = [x for x in row if not math.isnan(x)]
+        e = (case.get("exp") or [0] * len(case["rows"]))[i]
+        ctx.tag("magnitude:" + ("2^0" if e == 0 else "2^-30..-14" if e <= -14 else "2^-13..-1" if e < 0 else "2^1..13" if e < 14
+                                else "2^14..30"))
         if len(v) < len(row):
             ctx.tag("series-with-nan")
         if all(x == 0 for x in v):
@@ -217,6 +254,20 @@ def rounding_sensitive(row, spec_vhat):
     """exact V_hat == 0 on a non-constant series: the implementation's float value is +-1e-17, decided by rounding"""
     v = [x for x in row if not math.isnan(x)]
     return spec_vhat == 0 and len(set(v)) > 1
+
+
+def gen_scaled_series(rng, n):
+    e = gen_exp(rng)
+    return [x * 2.0 ** e for x in gen_series(rng, n)], e
+
+
+def acovf_differs(got, exact, e):
+    """acovf output vs exact autocovariances (protocol strings) of a series of magnitude 2^e: compared after exact division
+    by 4^e, so the 1e-9 tolerance is relative to the magnitude of the series"""
+    q = Fraction(4) ** e
+    exp = [float(Fraction(x) / q) for x in exact]
+    scale = max(1.0, abs(exp[0]) if exp else 1.0)
+    return len(got) != len(exp) or any(not abs(g / float(q) - x) <= 1e-9 * scale for g, x in zip(got, exp))
 
 
 # ------------------------------------------------------------------------------------------------ correspondence
@@ -242,7 +293,8 @@ def correspondence(ctx):
                      expected="a Dataset", tags={"method": c["method"]})
             continue
         for i, (row, m) in enumerate(zip(c["rows"], ms)):
-            if not core.close(r["mean"][i], m["mean"]):
+            sc = row_scale(c, i)
+            if not core.close(r["mean"][i] / sc, Fraction(m["mean"]) / Fraction(sc)):
                 ctx.fail("impl-vs-model-hln", "correspondence", "diebold_mariano", "mean-differs", describe(c), observed=r["mean"][i],
                          expected=m["mean"], tags={"series": i})
             if int(r["timeseries_len"][i]) != m["len"]:
@@ -272,21 +324,23 @@ def correspondence(ctx):
     res = core.run_driver("C19", ci_ops)
     for (c, i, r), m in zip(ci_meta, res):
         ctx.case("ci-vs-model", {"case": describe(c), "series": i}, nontrivial=math.isfinite(r["ci_upper"][i]))
+        sc = row_scale(c, i)
         for key, mk in (("ci_upper", "upper"), ("ci_lower", "lower")):
-            if not core.close(r[key][i], m[mk], rtol=1e-8, atol=1e-10):
+            mv = core.parse_fl(m[mk])
+            if not core.close(r[key][i] / sc, mv / Fraction(sc) if isinstance(mv, Fraction) else mv, rtol=1e-8, atol=1e-10):
                 ctx.fail("ci-vs-model", "correspondence", "diebold_mariano", key + "-differs", {"case": describe(c), "series": i},
                          observed=r[key][i], expected=m[mk], tags={"series": i})
     # acovf (FFT) vs the model's direct estimator
     from scores.stats.statistical_tests.acovf import acovf, _next_regular
-    series = [[x for x in gen_series(rng, rng.choice([1, 2, 3, 4, 5, 7, 8, 9, 16, 17, 31, 64]))] for _ in range(ctx.n(150, 2000))]
-    res = core.run_driver("C19", [{"op": "c19.acovf", "args": {"series": [core.fl_str(x) for x in s]}} for s in series])
-    for s, m in zip(series, res):
-        ctx.case("acovf-vs-model", {"series": s}, nontrivial=len(set(s)) > 1)
+    series = [gen_scaled_series(rng, rng.choice([1, 2, 3, 4, 5, 7, 8, 9, 16, 17, 31, 64])) for _ in range(ctx.n(150, 2000))]
+    res = core.run_driver("C19", [{"op": "c19.acovf", "args": {"series": [core.fl_str(x) for x in s]}} for s, _ in series])
+    for (s, e), m in zip(series, res):
+        ctx.case("acovf-vs-model", {"series": s, "exp": e}, nontrivial=len(set(s)) > 1)
         with np.errstate(all="ignore"):
             got = [float(x) for x in acovf(np.array(s, dtype=float))]
-        scale = max(1.0, abs(float(Fraction(m[0]))) if m else 1.0)
-        if len(got) != len(m) or any(abs(g - float(Fraction(e))) > 1e-9 * scale for g, e in zip(got, m)):
-            ctx.fail("acovf-vs-model", "correspondence", "acovf", "autocovariance-differs", {"series": s}, observed=got, expected=m)
+        if acovf_differs(got, m, e):
+            ctx.fail("acovf-vs-model", "correspondence", "acovf", "autocovariance-differs", {"series": s, "exp": e}, observed=got,
+                     expected=m)
     # _next_regular exhaustively
     top = ctx.n(10 ** 4, 10 ** 5)
     m = core.run_driver("C19", [{"op": "c19.next_regular", "args": {"lo": 1, "hi": top}}])[0]
@@ -324,13 +378,14 @@ def check_property(case, r, specs, rerun):
         tags = dict(tags0, series=i)
         v = [x for x in row if not math.isnan(x)]
         n = len(v)
-        mean_exact = sum(Fraction(x) for x in v) / n
+        sc = row_scale(case, i)              # power of two: mean and limits are compared after exact division by it
+        mean_exact = sum(Fraction(x) for x in v) / n / Fraction(sc)
         st = r["dm_test_stat"][i]
         # counts and mean
         if int(r["timeseries_len"][i]) != n:
             bad.append(("diebold_mariano", "timeseries_len-wrong", r["timeseries_len"][i], n, tags))
-        if not core.close(r["mean"][i], mean_exact):
-            bad.append(("diebold_mariano", "mean-wrong", r["mean"][i], float(mean_exact), tags))
+        if not core.close(r["mean"][i] / sc, mean_exact):
+            bad.append(("diebold_mariano", "mean-wrong", r["mean"][i], float(mean_exact * Fraction(sc)), tags))
         allzero = all(x == 0 for x in v)
         if allzero and not math.isnan(st):
             bad.append(("diebold_mariano", "all-zero-series-not-nan", st, "nan", tags))
@@ -348,7 +403,7 @@ def check_property(case, r, specs, rerun):
         if not core.close_ff(conf, expc, rtol=1e-7, atol=1e-9):
             bad.append(("diebold_mariano", "confidence-not-cdf-of-statistic", conf, expc, tags))
         # interval
-        lo, up, mn = r["ci_lower"][i], r["ci_upper"][i], r["mean"][i]
+        lo, up, mn = r["ci_lower"][i] / sc, r["ci_upper"][i] / sc, r["mean"][i] / sc
         if math.isfinite(st):
             q = quantile_for(dist, cl, n)
             if math.isnan(lo) or math.isnan(up):
@@ -384,14 +439,16 @@ def check_property(case, r, specs, rerun):
             if not core.close_ff(cb, 1 - ca, rtol=1e-9, atol=1e-12):
                 bad.append(("diebold_mariano", "confidence-not-complemented-by-negation", cb, 1 - ca, dict(tags0, series=i)))
                 break
-            if not (core.close_ff(rn["ci_lower"][i], -r["ci_upper"][i]) and core.close_ff(rn["ci_upper"][i], -r["ci_lower"][i])
-                    and core.close_ff(rn["mean"][i], -r["mean"][i])):
+            sc = row_scale(case, i)
+            if not (core.close_ff(rn["ci_lower"][i] / sc, -r["ci_upper"][i] / sc)
+                    and core.close_ff(rn["ci_upper"][i] / sc, -r["ci_lower"][i] / sc)
+                    and core.close_ff(rn["mean"][i] / sc, -r["mean"][i] / sc)):
                 bad.append(("diebold_mariano", "interval-not-mirrored-by-negation", [rn["ci_lower"][i], rn["ci_upper"][i]],
                             [-r["ci_upper"][i], -r["ci_lower"][i]], dict(tags0, series=i)))
                 break
     # positive rescaling leaves the HLN statistic unchanged
     if method == "HLN":
-        for cfac in (2.0, 3.0, 0.125):
+        for cfac in RESCALE_FACTORS:
             sc = dict(case, rows=[[x * cfac for x in row] for row in case["rows"]])
             rs = rerun(sc)
             if "err" in rs:
@@ -413,10 +470,11 @@ def check_property(case, r, specs, rerun):
     # each series is handled independently (alone, other layout)
     if k > 1 or True:
         for i in range(k):
-            alone = dict(case, rows=[case["rows"][i]], h=[case["h"][i]],
+            alone = dict(case, rows=[case["rows"][i]], h=[case["h"][i]], exp=[(case.get("exp") or [0] * k)[i]],
                          layout="ts-second" if case["layout"] == "ts-first" else "ts-first")
             ra = rerun(alone)
-            if "err" in ra or not all(core.close_ff(ra[key][0], r[key][i], rtol=1e-12, atol=0) for key in r):
+            sc = row_scale(case, i)
+            if "err" in ra or not all(core.close_ff(normed(ra, 0, sc)[key], normed(r, i, sc)[key], rtol=1e-12, atol=0) for key in r):
                 bad.append(("diebold_mariano", "series-not-independent", {key: ra.get(key) for key in r} if "err" not in ra else ra["err"],
                             {key: r[key][i] for key in r}, dict(tags0, series=i)))
                 break
@@ -429,8 +487,8 @@ def report(ctx, batch, case, bad):
 
 
 def all_h_cases(rng, n):
-    s = gen_series(rng, n)
-    return [mk_case([s], [h], m, d, 0.9) for h in range(1, n) for m, d in (("HLN", "normal"), ("HG", "t"))]
+    s, e = gen_scaled_series(rng, n)
+    return [mk_case([s], [h], m, d, 0.9, exps=[e]) for h in range(1, n) for m, d in (("HLN", "normal"), ("HG", "t"))]
 
 
 def oracle(ctx, boost):
@@ -456,17 +514,15 @@ def oracle(ctx, boost):
         report(ctx, "property-" + c["method"], c, check_property(c, r, sp, run_impl))
     # acovf = direct biased estimator at every lag (Spec), FFT length is sound
     from scores.stats.statistical_tests.acovf import acovf, _next_regular
-    series = [gen_series(rng, rng.choice([1, 2, 3, 5, 6, 8, 13, 32, 33, 50])) for _ in range(ctx.n(120, 1500) * mult)]
-    res = core.run_driver("C19", [{"op": "c19.spec", "args": {"series": [core.fl_str(x) for x in s], "h": 1}} for s in series])
-    for s, m in zip(series, res):
-        ctx.case("acovf-vs-direct-estimator", {"series": s}, nontrivial=len(set(s)) > 1)
+    series = [gen_scaled_series(rng, rng.choice([1, 2, 3, 5, 6, 8, 13, 32, 33, 50])) for _ in range(ctx.n(120, 1500) * mult)]
+    res = core.run_driver("C19", [{"op": "c19.spec", "args": {"series": [core.fl_str(x) for x in s], "h": 1}} for s, _ in series])
+    for (s, e), m in zip(series, res):
+        ctx.case("acovf-vs-direct-estimator", {"series": s, "exp": e}, nontrivial=len(set(s)) > 1)
         with np.errstate(all="ignore"):
             got = [float(x) for x in acovf(np.array(s, dtype=float))]
-        exp = [Fraction(e) for e in m["acov"]]
-        scale = max(1.0, abs(float(exp[0])))
-        if len(got) != len(exp) or any(abs(g - float(e)) > 1e-9 * scale for g, e in zip(got, exp)):
-            ctx.fail("acovf-vs-direct-estimator", "property", "acovf", "not-the-biased-estimator", {"series": s}, observed=got,
-                     expected=[float(e) for e in exp])
+        if acovf_differs(got, m["acov"], e):
+            ctx.fail("acovf-vs-direct-estimator", "property", "acovf", "not-the-biased-estimator", {"series": s, "exp": e},
+                     observed=got, expected=[float(Fraction(x)) for x in m["acov"]])
     top = ctx.n(10 ** 4, 10 ** 5)
     b = ctx.batches.setdefault("next_regular-is-regular-and-large-enough", {"cases": 0, "failed": 0})
     prev_reg = None
@@ -494,9 +550,9 @@ def replay(ctx, payload):
         from scores.stats.statistical_tests.acovf import acovf
         s = case["series"]
         m = core.run_driver("C19", [{"op": "c19.spec", "args": {"series": [core.fl_str(x) for x in s], "h": 1}}])[0]
-        got = [float(x) for x in acovf(np.array(s, dtype=float))]
-        exp = [float(Fraction(e)) for e in m["acov"]]
-        return len(got) != len(exp) or any(abs(g - e) > 1e-9 * max(1.0, abs(exp[0])) for g, e in zip(got, exp))
+        with np.errstate(all="ignore"):
+            got = [float(x) for x in acovf(np.array(s, dtype=float))]
+        return acovf_differs(got, m["acov"], int(case.get("exp", 0)))
     specs = core.run_driver("C19", series_ops(case, "c19.spec"))
     bad = check_property(case, run_impl(case), specs, run_impl)
     sig = payload.get("signature")
